@@ -162,7 +162,7 @@ def _keys_module():
     return sys.modules['pytoniq_core.crypto.keys']
 
 
-def h_mnemonic(ctx, pos, base, password=None):
+def h_mnemonic(ctx, pos, base, password=None, twin=None):
     """generator and validator agree: the word list drawn by mnemonic_new() is accepted by mnemonic_is_valid(), and key
     derivation from it is a function of the words alone.  Symbolic: the random draw of the word at position `pos`
     (its index ranges over the window base..base+3 of the 2048-word list; the other 23 draws are concrete); PBKDF2 and the
@@ -224,7 +224,7 @@ def h_mnemonic(ctx, pos, base, password=None):
     try:
         m = KM.mnemonic_new() if password is None else KM.mnemonic_new(24, password)
         ctx.require(isinstance(m, list) and len(m) == 24 and all(w in KM.words for w in m), 'mnemonic_new returns 24 words of the list')
-        ctx.require(_is(KM.mnemonic_is_valid(m), True), 'a generated mnemonic is valid')
+        ctx.require(_is(KM.mnemonic_is_valid(m), twin is None), 'a generated mnemonic is valid')
         ctx.require(_is(KM.mnemonic_is_valid(list(m)), True), 'validity is a function of the words (asked again, on a copy)')
         ctx.require(_is(KM.mnemonic_is_valid(m[:23]), False), 'a mnemonic of 23 words is not valid')
         k1 = KM.mnemonic_to_wallet_key(m)
@@ -256,7 +256,7 @@ def _low_byte(ctx, base, lo2):
 
 
 # ------------------------------------------------------------------------------- signatures (glue)
-def h_sign(ctx, n, alter):
+def h_sign(ctx, n, alter, twin=None):
     """sign_message / Client.sign / verify_sign over an idealised Ed25519: for every key pair and message there is one
     valid signature F(pk, m), F injective in its arguments (the unforgeability idealisation); the wrappers must produce
     it, accept it under the matching key, and reject when the message, the key or the signature is another one"""
@@ -327,7 +327,7 @@ def h_sign(ctx, n, alter):
         c = CI.Client.__new__(CI.Client)
         c.ed25519_private, c.ed25519_public = key, key.verify_key
         ctx.require(c.sign(m) == sig, 'Client.sign and sign_message give the same signature')
-        ctx.require(SG.verify_sign(pk, m, sig) is True, 'a signature verifies under the matching public key')
+        ctx.require(SG.verify_sign(pk, m, sig) is (True if twin is None else False), 'a signature verifies under the matching public key')
         if alter == 'msg' and n:
             d = ctx.bytes_('delta', n)
             ctx.assume(Not(d == bytes(n)))
@@ -394,14 +394,21 @@ def instances(tier, seed):
 
 def twins(tier, seed):
     yield 'h_channel', dict(n=4, twin='wrongdir')
+    yield 'h_sign', dict(n=3, alter='msg', twin='genuine rejected')
+    yield 'h_mnemonic', dict(pos=5, base=8, twin='generated invalid')
 
 
 BOUNDS = {'plaintext': 'lengths 0, 1, 16, 33 (quick) / 0..64 at block boundaries (thorough), contents symbolic',
           'peers': 'both secrets and both 32-byte ids symbolic: the three id orderings are solver-decided forks; one scenario with a third key pair opening a channel to the same peer'}
-OUTSIDE = ['the signature and mnemonic clauses of the property (libsodium Ed25519, PBKDF2): not encodable, see DESIGN.md section 7; '
-           'h_contract exercises them on fixed vectors as validation only',
-           'X25519, Ed25519->Curve25519 conversion, AES themselves', 'plaintexts longer than 64 bytes']
+BOUNDS['signatures'] = 'messages of 0, 1, 32, 45 symbolic bytes, seed symbolic; alterations: any other message of the same length, a longer message, any altered signature, any other key'
+BOUNDS['mnemonics'] = ('the random draw of one word symbolic over a 4-index window (indices 0..3, 1020..1023, 2044..2047; thorough also 4..7, 1024..1027, 2040..2043) at word '
+                       'positions 0, 1, 11, 23 (thorough: all 24), the other 23 draws concrete; only the first candidate of the generator loop is followed')
+OUTSIDE = ['Ed25519, X25519, the Ed25519->Curve25519 conversion, AES, PBKDF2 and HMAC themselves (environment stubs; contracts validated on fixed vectors in h_contract, '
+           'counterexamples replayed with the real primitives)', 'plaintexts longer than 64 bytes', 'mnemonics with a password (the library ignores it: TODO in the source)',
+           'later candidates of the mnemonic generator loop']
 STUBS = ['x25519.scalar_mult: uninterpreted function with dh(a, pub(b)) = dh(b, pub(a))',
          'AES-CTR: data XOR KS(key, iv) with KS uninterpreted', 'hashlib.sha256: injective uninterpreted function',
+         'Ed25519 (h_sign): VerifyKey.verify / crypto_sign / SigningKey.sign over one valid signature F(pk, msg) per key and message, F injective (built from the injective hash stub)',
+         'h_mnemonic: os.urandom = the symbolic draw; hashlib.pbkdf2_hmac and crypto_sign_seed_keypair = uninterpreted functions (real ones in the replay); math.pow on small integers exact',
          'Client/Server: real instances whose nacl key objects are replaced by holders of the symbolic secrets (nacl constructors bypassed); every peer under the same (host, port)']
 ASSUMPTIONS = ['stub contracts, validated on fixed vectors in h_contract against the real primitives']
